@@ -204,6 +204,7 @@ class State:
         self.fresh = [0]
         self.calls = []       # log of call sites visited: (callee, site, args-as-terms)
         self.loop_exits = []  # (fn path, head, from bb | None for a return inside the loop, to bb): how each loop was left
+        self.safety = set()   # facts assumed because their negation panics (assert terminators): no-panic side conditions
 
     def clone(self):
         s = State()
@@ -224,6 +225,7 @@ class State:
         s.fresh = self.fresh  # shared counter: names stay unique across forks
         s.calls = list(self.calls)
         s.loop_exits = list(self.loop_exits)
+        s.safety = set(self.safety)
         # destinations hold (cell, path): remap
         for f, nf in zip(self.frames, s.frames):
             if f.dest is not None:
@@ -268,6 +270,8 @@ class Interp:
         self.crate = crate
         self.inline = inline            # predicate(path) -> bool ; None = inline every local fn
         self.uninterpreted = uninterpreted or (lambda p: False)
+        self.loop_records = {}    # (head, instance) -> record of a stabilised loop (loopsum.py)
+        self.iter_heads = {}      # position head variable -> iterator value on loop entry
         self.max_depth = max_depth
         self.max_paths = max_paths
         self.axioms = axioms            # function(atoms)->constraints (accessor axioms)
@@ -1149,7 +1153,9 @@ class Interp:
                     out.append(Outcome('panic', ps, info=('assert', t[3].get('kind'), fn.path, t[5])))
                 if not self.feasible(st, good):
                     return
+                n0 = len(st.pc)
                 st.assume(good)
+                st.safety.update(st.pc[n0:])
                 if self.goto(st, fr, t[4], out):
                     return
             elif k == 'return':
@@ -1322,6 +1328,8 @@ class Interp:
                         cur = self.current_values(o.state, o.state.frames[-1], hav, mapping)
                         self.back_states.append((fn.path, head, o.state, mapping, valid, cur))
                 self.head_states.append((fn.path, head, s0_snapshot, mapping, valid, entry))
+                self.loop_records[(head, inst)] = {'fn': fn.path, 'fnobj': fn, 'head': head, 'inst': inst, 'mapping': mapping, 'snapshot': s0_snapshot,
+                                                   'backs': [(b[2], b[5]) for b in self.back_states if b[0] == fn.path and b[1] == head and b[3] is mapping]}
                 return final
             dropped |= bad
 
@@ -1410,7 +1418,10 @@ class Interp:
                     return Sym(T.var('%s@bb%d#%d.e%d' % (hint, head, inst, len(mapping))), v.path)
                 return Adt(v.path, v.variant, v.vidx, [hv(x, '%s.%d' % (hint, i)) for i, x in enumerate(v.xs)], v.is_enum)
             if isinstance(v, Iter):
-                return Iter(v.base, hv(v.pos, hint + '.pos', 'usize'), hv(v.end, hint + '.end', 'usize') if 'rev' in v.kind else v.end, v.kind, v.extra, v.fns, v.zipped)
+                r = Iter(v.base, hv(v.pos, hint + '.pos', 'usize'), hv(v.end, hint + '.end', 'usize') if 'rev' in v.kind else v.end, v.kind, v.extra, v.fns, v.zipped)
+                if isinstance(r.pos, tuple) and r.pos[0] == 'var':
+                    self.iter_heads[r.pos] = v     # the iterator as it was on entry to the loop (loopsum.loop_domain)
+                return r
             if isinstance(v, ListV):
                 return Sym(T.var('%s@bb%d#%d.l%d' % (hint, head, inst, len(mapping))), 'std::vec::Vec<?>')
             if isinstance(v, Sym):
@@ -1646,6 +1657,9 @@ class Interp:
         rets = [o for o in res if o.kind == 'ret']
         if not rets:
             raise Unanalysable('%s never returns' % cfn.path, site)
+        if any(o.state.loop_exits[len(st.loop_exits):] for o in rets):
+            from . import loopsum
+            rets = loopsum.summarise_all(self, rets)
         vals = []
         for o in rets:
             extra = [f for f in o.state.pc if f not in base_pc]
@@ -1886,12 +1900,17 @@ class Interp:
             for _, k in alts:
                 if not (callable(k) or isinstance(k, Outcome) or isinstance(k, tuple)):
                     raise Unanalysable('summary with several alternatives must use continuations')
+        npanic = sum(1 for _, k in alts if isinstance(k, Outcome) and k.kind == 'panic')
+        only_ok_alternative = npanic >= 1 and len(alts) - npanic == 1
         for i, (cs, k) in enumerate(feas):
             last = i == len(feas) - 1
             s2 = st if last else st.clone()
             f2 = s2.frames[-1]
+            n0 = len(s2.pc)
             for cnd in cs:
                 s2.assume(cnd)
+            if only_ok_alternative and not (isinstance(k, Outcome) and k.kind == 'panic'):
+                s2.safety.update(s2.pc[n0:])     # the other alternatives panic: this condition is a no-panic side condition
             val = k
             if callable(k):
                 args2 = [self.operand(s2, f2, a) for a in argops] if argops is not None else None
